@@ -425,6 +425,33 @@ def selector_rules(ctx, prop: str):
                 why = 'Select switches to the registered client `identifier` only' if guarded else \
                     'Select assigns the selection without first testing that the client is registered'
         run.add('C04.selector', mod, 'MultiClientSelector::Select', 'Select body', ok, why)
+        # ... on every path of a registered client: a `return` in front of the assignment is only allowed under the
+        # registered-client test itself
+        order = list(walk_json(s_body))
+        first_assign = next((i for i, x in enumerate(order) if any(x is a for a in assigns) and _calls_member(x, 'at')), None)
+
+        def _enclosing_ifs(node, target, acc):
+            if node is target:
+                return acc
+            for c_ in node.get('inner', []) or []:
+                res_ = _enclosing_ifs(c_, target, acc + [node] if kind(node) == 'IfStmt' else acc)
+                if res_ is not None:
+                    return res_
+            return None
+        if first_assign is not None:
+            skipping = []
+            for i, x in enumerate(order[:first_assign]):
+                if kind(x) != 'ReturnStmt':
+                    continue
+                ifs = _enclosing_ifs(s_body, x, []) or []
+                if not any(_cond_of(i_) is not None and refers_to_member(_cond_of(i_), 'm_clients') for i_ in ifs):
+                    skipping.append(x)
+            run.add('C04.selector', mod, 'MultiClientSelector::Select', 'Select: paths to the assignment', not skipping,
+                    'a registered client always becomes the selected one (no return in front of the assignment but the '
+                    'unknown-client refusal)' if not skipping else
+                    'Select can return before it switches to the new client (a return statement that does not depend on the '
+                    'registered-client test precedes the assignment): a granted claim leaves the previous client selected, which '
+                    'keeps receiving the out-events')
         # who may change the selection: Select assigns, Deselect resets - nobody else (a selection without a granted claim
         # would deliver out-events to a client that holds no claim)
         for name, m in methods.items():
